@@ -30,7 +30,8 @@ impl<W: io::Write> io::Write for AnsiWriter<W> {
 
 impl<W: io::Write> encode::Write for AnsiWriter<W> {
     fn set_style(&mut self, style: &Style) -> io::Result<()> {
-        let mut buf = [0; 12];
+        // ESC [ 0 ; 3x ; 4x ; 22 m is 13 bytes
+        let mut buf = [0; 13];
         buf[0] = b'\x1b';
         buf[1] = b'[';
         buf[2] = b'0';
